@@ -166,6 +166,30 @@ def witness_cases(ctx, env, flags):
         c.run(1)
     scenario("twin-import", twin_import)
 
+    # a caught failure beneath a shallow task, the edited task two jobs below the catching task; and the same with
+    # the failed job served by CSE (error CallNode of a twin)
+    def fail_single(c):
+        c.prog = ctl_db.FailProgram("single")
+        c.sig_override = ("C03-failed-job-subtree-incomplete",
+                          "a shallow task that caught a failure is recorded without the tasks that ran beneath the failed "
+                          "job: after editing one of them it replays the stale result")
+        c.run(0)
+        c.prog.edit(0)
+        c.run(0)
+        c.prog.edit(0)
+        c.run(0)
+    scenario("fail-single", fail_single)
+
+    def fail_twin(c):
+        c.prog = ctl_db.FailProgram("twin", ns="gcfail2")
+        c.sig_override = ("C03-cse-served-error-loses-subtree",
+                          "an error served by CSE is re-rejected without child jobs: the catching shallow parent is recorded "
+                          "without the tasks beneath the failed job and replays the stale result after an edit")
+        c.run(0)
+        c.prog.edit(0)
+        c.run(0)
+    scenario("fail-twin", fail_twin)
+
     # shallow parent over prov=False children: record_call_node itself records the children's Task values (one
     # commit each) between the CallNode and its subtree rows.  Every commit of that record_call_node as crash point
     # and as fault position; then each child is edited in turn on a copy of the resulting database.
@@ -306,7 +330,7 @@ def oracle(case: Case, r, res, crash_at, fault_k, fired):
             ctx.violation("C03-run-raises", f"run raised {res}", case.describe(), expected=repr(exp)[:200], actual=res)
         return
     if res != exp:
-        sig, what = classify(case)
+        sig, what = case.sig_override or classify(case)
         ctx.violation(sig, what, dict(case.describe(), repo=r), expected=repr(exp)[:300], actual=repr(res)[:300],
                       kind="history")
 
